@@ -82,9 +82,7 @@ func driverSource(bc *BatchCheck, l *prog.Loaded, caseID string, outs map[string
 	b.WriteString("\tc.Types = []reflect.Type{\n")
 	var decls []types.Type
 	ev := &Eval{L: l}
-	for i := range l.RootFiles {
-		decls = append(decls, sourceDecls(ev, i)...)
-	}
+	decls = sourceDecls(ev, 0) // the outputs are generated from the first analysed file
 	tsNames := map[string]string{}
 	for _, d := range decls {
 		n, isNamed := types.Unalias(d).(*types.Named)
